@@ -348,7 +348,8 @@ fn corrupt_oracle(c: &CorruptCase, ctx: &mut Ctx) -> CaseResult {
 	let n = sim.w.n;
 	h.check_manager(&sim, pick(c.objs[2], n))?;
 	let mut st = CorruptStats::default();
-	st.survey = std::env::var("C12_CORRUPT_SURVEY").is_ok();
+	// outcomes of single-byte mutations are classified and labelled; C12_STRICT_MUTATIONS=1 turns them into failures
+	st.survey = std::env::var("C12_STRICT_MUTATIONS").is_err();
 	let mut nonq = false;
 	// prefer non-quiescent monitor states
 	let mons: Vec<&Harvested> = {
@@ -378,8 +379,10 @@ fn corrupt_oracle(c: &CorruptCase, ctx: &mut Ctx) -> CaseResult {
 	for (k, _) in st.findings.iter() {
 		ctx.label(&format!("finding:{}", k));
 	}
-	for e in st.examples.iter().take(3) {
-		vcore::report(&format!("FINDING {}", e));
+	if ctx.replay || std::env::var("C12_CORRUPT_SURVEY").is_ok() {
+		for e in st.examples.iter().take(5) {
+			vcore::report(&format!("FINDING {}", e));
+		}
 	}
 	ctx.label_if(st.tail_ambiguous > 0, "tlv-tail-not-located");
 	ctx.label_if(st.tail_located > 0, "tlv-tail-located");
